@@ -276,30 +276,54 @@ func checkCacheLocking(p *Prog, r *Report) {
 			if !s.Returns() {
 				continue
 			}
-			lockOrd, lockKind := 0, ""
+			// lock state along the path: "", "R" or "W"; a deferred unlock keeps the lock to the end,
+			// an explicit unlock ends it at that point
+			type span struct {
+				from, to int
+				kind     string
+			}
+			var spans []span
+			cur := span{kind: ""}
+			endOrd := int(^uint(0) >> 1)
 			for _, e := range s.Events {
-				if e.Kind == EvCall {
-					cf := calleeFull(e.Call)
-					if cf == "(*sync.RWMutex).Lock" || cf == "(*sync.Mutex).Lock" {
-						lockOrd, lockKind = e.Ord, "W"
-					}
-					if cf == "(*sync.RWMutex).RLock" {
-						lockOrd, lockKind = e.Ord, "R"
-					}
-					if strings.HasSuffix(cf, "Unlock") || strings.HasSuffix(cf, "RUnlock") {
-						okL, whyL = false, "explicit unlock before the end of the method"
+				if e.Kind != EvCall {
+					continue
+				}
+				cf := calleeFull(e.Call)
+				switch cf {
+				case "(*sync.RWMutex).Lock", "(*sync.Mutex).Lock":
+					cur = span{from: e.Ord, to: endOrd, kind: "W"}
+				case "(*sync.RWMutex).RLock":
+					cur = span{from: e.Ord, to: endOrd, kind: "R"}
+				case "(*sync.RWMutex).Unlock", "(*sync.Mutex).Unlock", "(*sync.RWMutex).RUnlock":
+					if cur.kind != "" {
+						cur.to = e.Ord
+						spans = append(spans, cur)
+						cur = span{}
 					}
 				}
 			}
-			unlockDeferred := ""
-			for _, d := range Deferred(fn) {
-				cf := calleeFull(&d.Call)
-				if cf == "(*sync.RWMutex).Unlock" || cf == "(*sync.Mutex).Unlock" {
-					unlockDeferred = "W"
+			if cur.kind != "" {
+				// still held at the end of the path: must be released by a deferred unlock of the same kind
+				released := false
+				for _, d := range Deferred(fn) {
+					cf := calleeFull(&d.Call)
+					if (cur.kind == "W" && (cf == "(*sync.RWMutex).Unlock" || cf == "(*sync.Mutex).Unlock")) || (cur.kind == "R" && cf == "(*sync.RWMutex).RUnlock") {
+						released = true
+					}
 				}
-				if cf == "(*sync.RWMutex).RUnlock" {
-					unlockDeferred = "R"
+				if !released {
+					okL, whyL = false, "the lock is never released on this path"
 				}
+				spans = append(spans, cur)
+			}
+			held := func(ord int) string {
+				for _, sp := range spans {
+					if ord > sp.from && ord < sp.to {
+						return sp.kind
+					}
+				}
+				return ""
 			}
 			// map accesses and writes
 			for _, b := range s.Blocks {
@@ -319,8 +343,7 @@ func checkCacheLocking(p *Prog, r *Report) {
 						}
 					case *ssa.Store:
 						if derivesFromParam(t.Addr, fn.Params[0], 0) {
-							write = true
-							if lockKind != "W" || s.ord[in] < lockOrd {
+							if held(s.ord[in]) != "W" {
 								okL, whyL = false, "receiver state is written without the write lock (data race between the packet workers)"
 							}
 						}
@@ -328,11 +351,12 @@ func checkCacheLocking(p *Prog, r *Report) {
 					if key == nil {
 						continue
 					}
-					if lockKind == "" || s.ord[in] < lockOrd || unlockDeferred != lockKind {
-						okL, whyL = false, "the map is accessed outside lock / deferred unlock"
+					h := held(s.ord[in])
+					if h == "" {
+						okL, whyL = false, "the map is accessed while no lock is held"
 					}
-					if write && lockKind != "W" {
-						okL, whyL = false, "the map is written under the read lock"
+					if write && h != "W" {
+						okL, whyL = false, "the map is written without the write lock"
 					}
 					e := sxSeg(s, key, 0)
 					if len(fn.Params) < 2 || e != "(net.IP).String("+fn.Params[1].Name()+")" {
@@ -342,7 +366,7 @@ func checkCacheLocking(p *Prog, r *Report) {
 			}
 		}
 		r.Check(okK, "C11.R3", name+"/key", pos, "the map is keyed by ip.String() of the address parameter (4- and 16-byte spellings agree)", whyK)
-		r.Check(okL, "C11.R3", name+"/lock", pos, "every map access lies between lock and deferred unlock; writes hold the write lock", whyL)
+		r.Check(okL, "C11.R3", name+"/lock", pos, "every map access happens while the lock is held (released by defer or explicitly afterwards); writes hold the write lock", whyL)
 	}
 }
 
